@@ -108,6 +108,12 @@ class ConnSession:
         if k == "sleep":
             api.sleep(op[1])
             return
+        if k == "async":
+            # the operations run on a fresh thread, concurrently (same virtual instant) with whatever the current thread does next
+            self.nasync = getattr(self, "nasync", 0) + 1
+            name = f"U{8 + self.nasync % 2}"
+            self.threads.append(api.spawn(name, lambda ops=op[1], nm=name: [self.do(o, ctx=nm) for o in ops]))
+            return
         ev = api.emit("call", op=op, ctx=ctx)
         cid = ev["seq"]
         exc = None
@@ -132,6 +138,9 @@ class ConnSession:
             elif k == "drop":
                 if self.dev is not None:
                     self.dev.drop_link()
+            elif k == "port_dies":
+                if self.dev is not None:
+                    self.dev.port_dies()
             elif k == "join":
                 for t in self.threads:
                     t.join()
@@ -185,6 +194,7 @@ def run_spec(spec, seed=0, prefix=None, mode="random", preempt=0, preempt_prob=0
     else:
         from . import scen_api
         sess = scen_api.make(spec)
-    run = sched.run_scenario(sess.run, seed=seed, prefix=prefix, mode=mode, preempt=preempt, preempt_prob=preempt_prob, open_hook=sess.open_hook)
+    run = sched.run_scenario(sess.run, seed=seed, prefix=prefix, mode=mode, preempt=preempt, preempt_prob=preempt_prob, open_hook=sess.open_hook,
+                             hot=spec.get("hot"), hot_budget=spec.get("hot_budget", 0))
     run.session = sess
     return run
